@@ -13,7 +13,7 @@ RULE = ("bounded-exhaustive over chain length T+1 blocks and every accepted (--s
         "the trace spec (start(s); deliver s..min(e,T) ascending exactly once; complete(last)), every output compared with the "
         "reference model of the slice, file names checked, ranged csvdump compared with the slice of the whole-chain run; a third of "
         "the directories are out-of-order multi-file layouts, a third are partial copies whose out-of-range blk files are missing. "
-        "Windows crossing round heights (10^k, 2^k, halving multiples) over sparse indexes. distinct = (T, start-kind, end-kind, callback, base-height class) signatures")
+        "Windows crossing round heights (10^k, 2^k, halving multiples) over sparse indexes. A share of the chains has varied header times (backward steps, future-dated, 32-bit edges) and records longer than their block. distinct = (T, start-kind, end-kind, callback, base-height class) signatures")
 
 
 def make_chain(seed, coin, nblocks, base=0):
